@@ -81,10 +81,18 @@ type Server struct {
 	OnCloseConnFunc func(ctx context.Context, remoteAddr net.Addr, isServerShutdown bool)
 }
 
+// states of a connection: Shutdown closes a connection only by moving it from idle to closed, the connection
+// goroutine starts handling a request only by moving it from idle to busy
+const (
+	connIdle int32 = iota
+	connBusy
+	connClosedByShutdown
+)
+
 type connection struct {
-	conn           net.Conn
-	isBeingHandled atomic.Bool
-	assembler      PacketAssembler
+	conn      net.Conn
+	state     atomic.Int32
+	assembler PacketAssembler
 
 	writeTimeout time.Duration
 	readTimeout  time.Duration
@@ -174,12 +182,11 @@ func (s *Server) serve(ctx context.Context, listener net.Listener, handler Modbu
 
 		cCtx := context.WithValue(ctx, ContextRemoteAddr{}, netConn.RemoteAddr())
 		c := &connection{
-			conn:           netConn,
-			isBeingHandled: atomic.Bool{},
-			assembler:      s.AssemblerCreatorFunc(handler),
-			writeTimeout:   s.WriteTimeout,
-			readTimeout:    s.ReadTimeout,
-			onErrorFunc:    onErrorFunc,
+			conn:         netConn,
+			assembler:    s.AssemblerCreatorFunc(handler),
+			writeTimeout: s.WriteTimeout,
+			readTimeout:  s.ReadTimeout,
+			onErrorFunc:  onErrorFunc,
 		}
 		s.trackConn(c, true)
 		go func(ctx context.Context, conn *connection) {
@@ -276,7 +283,9 @@ func (c *connection) handle(ctx context.Context) {
 			continue // nothing read and not idle yet
 		}
 
-		c.isBeingHandled.Store(true)
+		if !c.state.CompareAndSwap(connIdle, connBusy) {
+			return // Shutdown has closed the connection: a request started now could not be answered
+		}
 		toSend, closeConn := c.assembler.ReceiveRead(cCtx, received[0:n], n)
 		if toSend != nil {
 			_ = conn.SetWriteDeadline(time.Now().Add(wTimeout))
@@ -285,7 +294,7 @@ func (c *connection) handle(ctx context.Context) {
 				return // when write fails to client we close connection
 			}
 		}
-		c.isBeingHandled.Store(false)
+		c.state.Store(connIdle)
 		if closeConn {
 			return
 		}
@@ -317,7 +326,7 @@ func (s *Server) Shutdown(ctx context.Context) error {
 	for {
 		allIdle := true
 		for c := range s.activeConnections {
-			if c.isBeingHandled.Load() {
+			if !c.state.CompareAndSwap(connIdle, connClosedByShutdown) {
 				allIdle = false
 				continue
 			}
